@@ -320,6 +320,19 @@ def decide(ctx, exe, known, hist, out, v, do_shrink=True):
     return "mismatch"
 
 
+def coqchk(ctx, pid):
+    """thorough tier: re-check the compiled property file and everything it depends on with the
+    independent checker; records its context summary (axioms must be none)"""
+    if ctx.quick or ctx.broken_list:
+        return
+    rc, o, e = vlib.sh(["coqchk", "-silent", "-o", "-Q", "theories", "BX", "-Q", "gen", "BXGen", "BX.Properties." + pid],
+                       cwd=vlib.COQ, timeout=3000)
+    txt = (o + e)
+    ctx.extra["coqchk"] = txt[-600:]
+    if rc != 0 or "* Axioms: <none>" not in txt:
+        ctx.broken("coqchk:Properties/%s" % pid, txt[-1500:])
+
+
 # ----------------------------------------------------------------------------- entry points
 
 def load_corpus():
@@ -340,6 +353,7 @@ def run(ctx):
 
 def run_inner(ctx):
     ctx.proofs(["Proofs/ChainLedgerProofs"], model_targets=["ChainLedger"])
+    coqchk(ctx, PID)
     exe, err = vlib.build_harness("chain")
     if exe is None:
         ctx.broken("harness-build", err)
@@ -397,6 +411,10 @@ def run_inner(ctx):
 
 def replay(ctx, path):
     obj = json.load(open(path))
+    if "history" not in obj:
+        print(json.dumps(dict(note="this replay names a broken obligation / tie, not an input; re-run ./check C09",
+                              broken=obj.get("broken"), message=(obj.get("message") or "")[:400])))
+        return 1
     exe, err = vlib.build_harness("chain")
     if exe is None:
         print("harness build failed", err)
